@@ -1135,6 +1135,7 @@ fn examine(
                 *stats.outcomes.entry("probe:enumeration-of-a-file-cut-short-by-the-time-budget".to_string()).or_insert(0) += 1;
                 break;
             }
+            util::heartbeat();
             fresh(&work)?;
             run_case(&g, kind, target, &pristine_bytes, &pristine_obs, &prefix_obs, &regions, c, &work, &scratch, &mut stats);
         }
